@@ -146,7 +146,7 @@ package websocket
 //@ specfn rfc_closeMustReject(int) bool = "rfc.closeMustReject"
 
 //@ modset BrMods(c) := c.br.g_rd, c.br.g_buffered, regionid(c.br.g_buf)
-//@ modset CtlMods(c) := c.g_ctlCount, c.g_ctlType, c.g_ctlCode, c.writeErr, c.g_closeSent, c.g_wfailed, c.conn.g_wn, c.conn.g_wire, c.conn.g_wdl
+//@ modset CtlMods(c) := c.g_ctlCount, c.g_ctlType, c.g_ctlCode, c.writeErr, c.g_closeSent, c.g_wfailed, c.conn.g_wn, c.conn.g_wire, c.conn.g_wdl, c.g_cs
 //@ modset ReaderMods(c) := c.readRemaining, c.readFinal, c.readLength, c.readMaskPos, c.readMaskKey, c.readDecompress, c.g_hcalls, c.g_hop, c.g_mlen, BrMods(c), CtlMods(c)
 
 //@ pred RInv(c) := c.br != nil && c.conn != nil && !held(c.mu) && c.br.g_buf > 0 && c.readRemaining >= 0 && c.br.g_size >= 125 && c.br.g_buffered >= 0 && c.br.g_rd >= 0 && \
